@@ -279,7 +279,7 @@ func randomBlob(rng *hlib.Rand) hostile {
 
 // ---- directed constructions (each reproduces one way the unrepaired reader fails) ----
 
-func leaf(d uint64, cptr uint64) elem  { return elem{dsize: d, ttag: 0xFF, stag: 0xFF, cptr: cptr} }
+func leaf(d uint64, cptr uint64) elem   { return elem{dsize: d, ttag: 0xFF, stag: 0xFF, cptr: cptr} }
 func branch(d uint64, cptr uint64) elem { return elem{dsize: d, ttag: 0xFE, stag: 0xFF, cptr: cptr} }
 
 func cat(parts ...[]byte) []byte {
